@@ -49,7 +49,7 @@ theorem afterTao_cc {body : Body} {s s' : ChainState} {env : Env} {x : Except St
   obtain ⟨h1, h2⟩ := hx _ rfl
   exact ⟨h1, .inl h2⟩
 
-theorem timeoutExecuted_cc (body : Body) (hb : body.opensChan = none) (s : ChainState) (ch : Channel) (p : PacketV1) :
+theorem timeoutExecuted_cc (body : Body) (_hb : body.opensChan = none) (s : ChainState) (ch : Channel) (p : PacketV1) :
     ChanShape body s (timeoutExecuted s ch p) ∧ (timeoutExecuted s ch p).conn = s.conn := by
   rw [timeoutExecuted_eq]
   split
